@@ -174,6 +174,31 @@ theorem merge_empty (r : Req) (x : Inter M r) : merge r x (empty r) = x := by
 
 end tree
 
+/-! ### range buckets -/
+
+theorem range_split (cuts : List Int) (hs : cuts.Pairwise (· < ·)) (v : Int) :
+    cuts.take (rangeIdx cuts v) = cuts.filter (· ≤ v) ∧ ∀ c ∈ cuts.drop (rangeIdx cuts v), v < c := by
+  induction cuts with
+  | nil => simp [rangeIdx]
+  | cons c cs ih =>
+    obtain ⟨hc, hcs⟩ := List.pairwise_cons.1 hs
+    obtain ⟨ih1, ih2⟩ := ih hcs
+    by_cases h : c ≤ v
+    · have : rangeIdx (c :: cs) v = rangeIdx cs v + 1 := by simp [rangeIdx, h]
+      rw [this]
+      simp only [List.take_succ_cons, List.drop_succ_cons, List.filter_cons, h, decide_true, if_true]
+      exact ⟨by rw [ih1], ih2⟩
+    · have hnil : cs.filter (· ≤ v) = [] := by
+        rw [List.filter_eq_nil_iff]; intro a ha; have := hc a ha; simp; omega
+      have : rangeIdx (c :: cs) v = 0 := by simp [rangeIdx, h, hnil]
+      rw [this]
+      simp only [List.take_zero, List.drop_zero, List.filter_cons, h, decide_false]
+      refine ⟨by simp [hnil], ?_⟩
+      intro a ha
+      rcases List.mem_cons.1 ha with rfl | ha
+      · omega
+      · have := hc a ha; omega
+
 /-! ### folds over a commutative monoid, merge trees -/
 
 /-- a merge schedule: which fruits are merged with which, in what grouping -/
